@@ -626,6 +626,34 @@ def fold_base_array(repo: Repo) -> dict | None:
             ok = got == "raise" if want == "raise" else (isinstance(got, tuple) and got == (want, list(data)))
             if not ok:
                 out["write_bad"].append((label, got, want))
+        # two dimensions: the rows are written through the slots the Array family resolves to (class and metaclass MRO), so an override that
+        # handles all rows at once is interpreted too: every row is checked against the inner dimension
+        slots = repo.slot_table().get("Array") or {}
+        if all(slots.get(k_) is not None for k_ in ("_write", "_write_array")):
+            nested = {
+                "x[2][3] given rows of 3 and 3": ([[1, 2, 3], [4, 5, 6]], "ok"),
+                "x[2][3] given rows of 2 and 4 (the right total)": ([[1, 2], [3, 4, 5, 6]], "raise"),
+                "x[2][3] given rows of 4 and 3": ([[1, 2, 3, 4], [5, 6, 7]], "raise"),
+                "x[2][3] given one row": ([[1, 2, 3]], "raise"),
+            }
+            for label, (data, want) in nested.items():
+                calls = []
+                elem = Sym("elem", {"size": 2}, {"_write_array": Host(lambda s, d, calls=calls: calls.append(list(d)) or len(d)),
+                                                 "_write": Host(lambda s, d, calls=calls: calls.append([d]) or 1)})
+                inner = Sym("row", {"type": elem, "num_entries": 3, "null_terminated": False, "dynamic": False, "size": 6},
+                            {k_: UserFunc(f_.node) for k_, f_ in slots.items() if f_ is not None and k_.startswith("_write")})
+                outer = Sym("arr", {"type": inner, "num_entries": 2, "null_terminated": False, "dynamic": False, "size": 12})
+                env2 = dict(env)
+                env2.update({"sum": sum, "len": len, "list": list, "chain": Sym("chain", {}, {"from_iterable": Host(lambda it: [x for r_ in it for x in r_])}),
+                             "MetaType": Sym("MetaType", {}, {k_: UserFunc(f_.node) for k_, f_ in (("_write_array", repo.func_opt("types/base.py", "MetaType._write_array")),) if f_})})
+                try:
+                    Evaluator(env2, steps=4000).call_user(UserFunc(wr.node), [outer, Sym("stream"), data], {})
+                    got = "ok" if [x for c_ in calls for x in c_] == [x for r_ in data for x in r_] else f"wrote {calls}"
+                except Raised:
+                    got = "raise"
+                out["cases"] += 1
+                if got != want:
+                    out["write_bad"].append((label, got, want))
         return out
     except Refused:
         return None
@@ -866,6 +894,9 @@ def fold_union_write(repo: Repo) -> dict | None:
             first = log[0] if log else None
             if len(written) != size or first is None or first[1] != max(m[1] for m in members) or any(b != 0 for b in written[first[1]:]) or len(log) != 1:
                 out["bad"].append((label, f"wrote members {log}, {len(written)} bytes in all", f"one member of {max(m[1] for m in members)} bytes then zero padding up to {size}"))
+            elif first[0] == "<anonymous struct>" and any(nm is not None and n >= first[1] for nm, n, _a in members):
+                # a structure has holes (padding, unused bits of a unit) that a scalar of the same size does not: on a tie the regular member carries the bytes
+                out["bad"].append((label, "dumped through the anonymous structure", "through the regular member of the same size (the structure may have holes the member does not)"))
         return out
     except Refused:
         return None
